@@ -54,7 +54,7 @@ class C07(E1Check):
                 "within the deviation bound); non-trivial = >= 2 environment events or an injection; distinct = distinct traces")
 
     def bounds(self, tier: str) -> dict:
-        return {"shapes": QUICK_SHAPES if tier == "quick" else list(SHAPES), "deviation_bound": {"fault": 0 if tier == "quick" else 1, "timeout": 1 if tier == "quick" else 2}}
+        return {"shapes": QUICK_SHAPES if tier == "quick" else list(SHAPES), "deviation_bound": {"fault": 0 if tier == "quick" else "1 for <= 3 components", "timeout": 1 if tier == "quick" else "2 for <= 3 components, else 1"}}
 
     def units(self, tier: str, seed: int) -> list:
         progs = []
@@ -91,12 +91,14 @@ class C07(E1Check):
         return progs
 
     def bound(self, tier: str, program: Any) -> int:
+        n = len(paths(SHAPES[program["shape"]]))
         if program["kind"] == "timeout":
-            return 1 if tier == "quick" else 2
-        return 0 if tier == "quick" else 1
+            return 1 if tier == "quick" else (2 if n <= 3 else 1)
+        # thorough: one preemptive injection for trees of <= 3 components, all gate orders for the larger ones
+        return 0 if tier == "quick" else (1 if n <= 3 else 0)
 
     def max_execs(self, tier: str, program: Any) -> int:
-        return 6000 if tier == "quick" else 150000
+        return 6000 if tier == "quick" else 30000
 
     def hash_modes(self, tier: str, program: Any) -> tuple:
         return (0,)
